@@ -8,6 +8,11 @@ na = []
 for pid in props:
     c = src['claimed'].get(pid)
     if c:
+        # the numeric bounds in the note come from the spec that actually runs (see mkbounds.py)
+        sp = json.load(open(f'/verif/harness/specs/{pid}.json'))
+        auto = [b for b in sp.get('bounds', []) if b.startswith('parameters as run')]
+        if 'note_base' in c and auto:
+            c['note'] = c['note_base'] + " Bounds - " + auto[0] + " (the qualitative bounds and everything outside them are listed in the evidence file)."
         checks.append({
             "property_id": pid,
             "quick_cmd": f"./check {pid} --tier quick",
